@@ -220,3 +220,7 @@ PROPS["C01"].update(
 COMMON_FRAMES = ["global-purity", "class-level-state", "no-shared-mutable-skeleton", "lexer-reset-complete", "init-before-use"]
 for _pid, _cfg in PROPS.items():
     _cfg["frames"] = list(dict.fromkeys(list(_cfg.get("frames", [])) + COMMON_FRAMES))
+# C04 / C03: function-level contracts of the ALTER handlers compose into a statement about the REPORTED table only if the
+# handlers mutate the table's field objects in place (the reported dict was built before the ALTER and shares them)
+for _pid in ("C04", "C03"):
+    PROPS[_pid]["frames"].append("alter-handlers-mutate-in-place")
